@@ -38,7 +38,21 @@ pub fn run(ctx: &Ctx, rep: &mut Report) {
 fn one(ctx: &Ctx, rep: &mut Report, id: usize, cfg: Cfg, vc: ValueClass, pc: PromiseClass, seeded: bool, rk: usize) {
     <P as Gx>::case_reset();
     let mut rng = ctx.rng(&format!("c01-{GROUP}"), id as u64);
-    let case = Case::random(cfg, vc, pc, seeded, &mut rng);
+    let mut case = Case::random(cfg, vc, pc, seeded, &mut rng);
+    // degenerate but valid witnesses: an all-zero blinding vector (and, with value 0, an identity commitment)
+    if id % 13 == 0 {
+        let j = id % cfg.m;
+        case.blindings[j] = vec![Scalar::ZERO; cfg.ext];
+        if id % 26 == 0 {
+            case.values[j] = 0;
+            case.promises[j] = if id % 52 == 0 { Some(0) } else { None };
+        }
+        case.commitments[j] = commit(case.params().pc_gens(), case.values[j], &case.blindings[j]);
+        rep.count("zero_blinding_cases", 1);
+        if case.commitments[j] == P::identity() {
+            rep.count("identity_commitment_cases", 1);
+        }
+    }
     let kind = rng_kinds(rng.next_u64())[rk].clone();
     let replay = json!({"tier": if ctx.thorough() {"thorough"} else {"quick"}, "seed": ctx.seed, "leg": if <P as Gx>::IS_FM {"fm"} else {"ris"},
         "case": id, "descr": case.json(), "rng": format!("{kind:?}")});
